@@ -10,6 +10,8 @@ mod ops_box;
 mod ops_boxobj;
 mod ops_curve;
 mod ops_hash;
+#[cfg(feature = "nightly")]
+mod ops_prot;
 mod ops_pwhash;
 mod ops_rand;
 mod ops_stream;
@@ -31,6 +33,10 @@ fn dispatch(op: &str, args: &[&str]) -> Ans {
         return a;
     }
     if let Some(a) = ops_pwhash::dispatch(op, args) {
+        return a;
+    }
+    #[cfg(feature = "nightly")]
+    if let Some(a) = ops_prot::dispatch(op, args) {
         return a;
     }
     if let Some(a) = ops_rand::dispatch(op, args) {
